@@ -54,7 +54,15 @@ int main() {
   char line[512];
   while (fgets(line, sizeof(line), stdin)) {
     char c = line[0];
-    if (c == 'R') {
+    if (c == 'T') {
+      // numeric values of the OffsetType enumerators, in the order of the model's constructors
+      printf("T %u %u %u %u %u %u %u %u %u %u %u %u\n", unsigned(OffsetType::kSignedOffset), unsigned(OffsetType::kUnsignedOffset),
+             unsigned(OffsetType::kAArch64_ADR), unsigned(OffsetType::kAArch64_ADRP), unsigned(OffsetType::kThumb32_ADR),
+             unsigned(OffsetType::kThumb32_BLX), unsigned(OffsetType::kThumb32_B), unsigned(OffsetType::kThumb32_BCond),
+             unsigned(OffsetType::kAArch32_ADR), unsigned(OffsetType::kAArch32_U23_SignedOffset),
+             unsigned(OffsetType::kAArch32_U23_0To3At0_4To7At8), unsigned(OffsetType::kAArch32_1To24At0_0At24));
+    }
+    else if (c == 'R') {
       unsigned ty, vs, bits, sh, dl; long long lo; unsigned long long cnt, old; long long step;
       if (sscanf(line + 1, "%u %u %u %u %u %lld %llu %lld %llu", &ty, &vs, &bits, &sh, &dl, &lo, &cnt, &step, &old) != 9) { printf("BAD\n"); continue; }
       OffsetFormat f; mkfmt(f, ty, vs, bits, sh, dl);
